@@ -776,7 +776,7 @@ func rulesC03(r *Run) {
 		r.Check("R1", "recheck-after-join", bpos, bad == "", "%s", orOK(bad, "every path to BlockPostChecks re-tests the threshold after Group.Wait"))
 	}
 	ruleToleranceComparisonsGuarded(r, "R1")
-	r.Expect("R1", 8)
+	r.Expect("R1", 7)
 
 	// ---- R2: counting
 	r.Kind("R2", "K2")
